@@ -1,7 +1,8 @@
 #!/venv/bin/python
 """Freeze the local-variable names (with binding fingerprints) of every function of
 the pinned tree into sa/local_names.json.  Re-run only when the reference tree changes."""
-import json, sys
+import json, sys, os
+os.environ['VERIF_NO_ALIAS_PROPAGATION'] = '1'
 sys.path.insert(0, '/verif')
 from sa.project import Project
 from sa.localnames import binding_fingerprints, first_use_order, TABLE
